@@ -156,7 +156,8 @@ class Ctx:
             dn.append([F(x, al) if isinstance(x, str) else x for x in disj])
         inst_name = instance or norm(site)
         if not nodes:
-            raise AnalysisError(f"{rule}: site `{norm(site)}` in {f.qual} has no CFG node")
+            # statically dead code (e.g. after an unconditional raise): nothing can go wrong there
+            return self.ob(rule, f, inst_name, True, detail="site is dead code (no CFG node)", node=site)
         bad = None
         nstates = 0
         by = set()
@@ -187,6 +188,10 @@ class Ctx:
                            detail=f"{what or 'site'} `{norm(site)}` reachable without required facts {need}; facts on the offending path: [{have}]",
                            witness=" ".join(f"{l}:{e}" for l, e in tr[-30:]), node=site)
         return self.ob(rule, f, inst_name, True, node=site, by=sorted(by))
+
+    def reachable(self, f: Func, site, native=False) -> bool:
+        r = self.explore(f, native=native)
+        return any(r.states_at.get(n.id) for n in self.cfg_nodes_of(r.cfg, site))
 
     def facts_at(self, f: Func, site, native=False, inject=(), assume=None):
         r = self.explore(f, native=native, inject=inject, assume=assume)
